@@ -20,7 +20,7 @@ import html5lib
 HTML = namespaces["html"]
 CONTAINERS = ["div", "body", "td", "select", "svg", "math", "title", "textarea", "table", "p"]
 OPEN = ["", "<svg>", "<math><mtext>", "<noscript>", "<style>", "<table>", "<textarea>", "<math><annotation-xml encoding=text/html>", "<math>", "<svg><title>", "<svg><desc>", "<math><mi>", "<math><annotation-xml>", "<table><tr><td>", "<select>", "<title>",
-        "<script>", "<p>", "<a href=x>", "<svg><foreignObject>", "<xmp>", "<plaintext>", "<template>", "<iframe>", "<noembed>", "<form>", "<b><i>", "<ul><li>", "<pre>", "<svg><style>", "<math><style>", "<svg><script>"]
+        "<svg></p>", "<math></br>", "<script>", "<p>", "<a href=x>", "<svg><foreignObject>", "<xmp>", "<plaintext>", "<template>", "<iframe>", "<noembed>", "<form>", "<b><i>", "<ul><li>", "<pre>", "<svg><style>", "<math><style>", "<svg><script>"]
 PAYLOAD = [
     "<img src=x onerror=alert(1)>", "</style><img src=x onerror=a>", "</script><img src=x onerror=a>", "</title><img src=x onerror=a>", "</textarea><img src=x onerror=a>", "<!--><img onerror=a>-->", "--><img onerror=a>",
     "<a href=\"javascript:alert(1)\">x</a>", "<a href=\"jav&#x09;ascript:alert(1)\">x</a>", "<a href=\" &#14; javascript:alert(1)\">x</a>", "<p title=\"</noscript><img src=x onerror=a>\">", "<p title=\"</title><img onerror=a>\">",
@@ -29,6 +29,8 @@ PAYLOAD = [
     "<svg><a xlink:href=\"javascript:a\">x</a></svg>", "<math href=\"javascript:a\">x</math>", "<img src=\"data:text/html,x\">", "<img src=\"data:image/png,x\">", "<b id=\"x", "x<", "<textarea></textarea><img onerror=a>", "<mglyph><style><img onerror=a>",
     "<table><style><img onerror=a>", "<select><style><img onerror=a>", "<p>a<table>b<td>c", "<br onclick=a>", "<font color=red size=`x`onmouseover=a>", "<a href=x`y title=`z>", "<p title=a/>", "\x00<img\x00onerror=a>",
     "<a href=\"javascript&amp;colon;alert(1)\">x</a>", "<a href=\"&amp;#106;avascript:alert(1)\">x</a>", "<p title=\"&amp;lt;img/onerror=a&amp;gt;\" id=a&amp;amp;lt;b>", "<a href=\"javascript:1\" ping=\"javascript:2\">x</a>",
+    "<title><a title=\"</title><img src=x onerror=a>\">", "<desc><a title=\"</desc><img src=x onerror=a>\">", "<style><a title=\"</style><img src=x onerror=a>\">", "</p><title><a title=\"</title><img src=x onerror=a>\">",
+    "</br><textarea><a title=\"</textarea><img src=x onerror=a>\">",
     "<img src=\"javascript:1\" lowsrc=\"vbscript:2\" longdesc=\"data:text/html,3\" usemap=\"javascript:4\">", "<a href=\"&amp;Tab;javascript&amp;NewLine;:a\">x</a>",
 ]
 NC, NO, NP = len(CONTAINERS), len(OPEN), len(PAYLOAD)
@@ -90,6 +92,8 @@ def roundtrip(ci: int, o1: int, o2: int, pi: int, omit: bool, qmode: int, scr1: 
     rm = pick(3, remode)
     omit, scr1, scr2, walker_dom = bool(omit), bool(scr1), bool(scr2), bool(walker_dom)
     with untraced():
+        if KF_BREAKOUT and _misplaced_html(html5lib.parseFragment(text, container=cont, treebuilder="dom", scripting=scr1)):
+            return True            # listed known finding: the tree itself cannot be written in HTML syntax
         problems = _pipeline(cont, text, qm, rm, omit, scr1, scr2, walker_dom)
         if KF_NS:
             problems = [p for p in problems if not p.startswith("nsconfusion ")]
@@ -97,6 +101,28 @@ def roundtrip(ci: int, o1: int, o2: int, pi: int, omit: bool, qmode: int, scr1: 
 
 def _problems(ci, o1, o2, pi, omit, qmode, scr1, scr2, remode, walker_dom):
     return _pipeline(CONTAINERS[ci], OPEN[o1] + OPEN[o2] + PAYLOAD[pi], ("legacy", "spec", "always")[qmode], remode, bool(omit), bool(scr1), bool(scr2), bool(walker_dom))
+
+SVGNS, MMLNS = namespaces["svg"], namespaces["mathml"]
+def _misplaced_html(node, parent_foreign=False):
+    """an HTML-namespace element sits directly inside an SVG / MathML element that is NOT an integration point (the first parse
+    puts <p> / <br> there for a stray </p> / </br> inside foreign content); HTML syntax cannot express that position"""
+    for c in node.childNodes:
+        if c.nodeType != c.ELEMENT_NODE:
+            continue
+        ns = c.namespaceURI or HTML
+        if ns == HTML and parent_foreign:
+            return True
+        foreign = ns in (SVGNS, MMLNS)
+        integration = (ns == SVGNS and c.nodeName in ("foreignObject", "desc", "title")) or (ns == MMLNS and c.nodeName in ("mi", "mo", "mn", "ms", "mtext")) or \
+            (ns == MMLNS and c.nodeName == "annotation-xml" and (c.getAttribute("encoding") or "").lower() in ("text/html", "application/xhtml+xml"))
+        if _misplaced_html(c, foreign and not integration):
+            return True
+    return False
+
+KF_BREAKOUT = findings.active("C10-html-element-inside-foreign-content")
+def sig_breakout(ci, o1, o2, pi, omit, qmode, scr1, scr2, remode, walker_dom, **_):
+    t = html5lib.parseFragment(OPEN[o1] + OPEN[o2] + PAYLOAD[pi], container=CONTAINERS[ci], treebuilder="dom", scripting=bool(scr1))
+    return _misplaced_html(t)
 
 def _pipeline(cont, text, qm, rm, omit, scr1, scr2, walker_dom):
     if True:
